@@ -1,6 +1,8 @@
 import CalVerif.Prim.Res
 import CalVerif.Model.Range
 import CalVerif.Model.BiffStrings
+import CalVerif.Model.Formats
+import CalVerif.Model.De
 /-! Model of the BIFF8 cell-record layer of `/repo/src/xls.rs` (property C02).
 
     Mirrors, function by function:
@@ -16,36 +18,33 @@ import CalVerif.Model.BiffStrings
     Framing (`RecordIter::next` with CONTINUE gathering) and `parse_string` are the definitions of
     Model/BiffStrings.lean (`Biff.nextRecord`, `Biff.parseStringWith`), shared with C12.
 
-    Floats are opaque 64-bit patterns (`Nat`). The two float operations the code performs, `v as f64`
-    and `x / 100.0`, are the fields of `FOps`: every definition and theorem is parametric in them; the
-    driver instantiates them with the native IEEE operations.
+    Floats are 64-bit patterns (`Nat`). `v as f64` is `De.intToF64` (Model/De.lean: the exact bit-level
+    i64 → f64 conversion, round to nearest even). `x / 100.0` is NOT modelled (IEEE division): it is the
+    field of `FOps`, every definition and theorem is parametric in it and the driver instantiates it with
+    the native operation. `CellFormat`, `DtKind` and the wrap decision are C10's (`Model/CellFormat.lean`,
+    `Model/Formats.lean`): `fmtF64`/`fmtI64` are `Formats.formatF64`/`formatI64` on `Nat` bit patterns
+    (`fmtF64_formatF64`, `fmtI64_formatI64` in Props/C02).
 
     Text is a list of Unicode scalar values (see BiffStrings). Code page 1200 (the only legal one in BIFF8). -/
 
 namespace BiffCells
 open Biff
 
-/-- the two float operations of `rk_num`, on bit patterns -/
+/-- the float operation of `rk_num` that is not modelled, on bit patterns -/
 structure FOps where
-  /-- `v as f64` for an `i64` -/
-  i2f : Int → Nat
   /-- `x / 100.0` -/
   div100 : Nat → Nat
+
+/-- `v as f64` for an `i64`: the exact conversion of Model/De.lean -/
+def i2f (v : Int) : Nat := De.intToF64 v
 
 /-- `CellErrorType` -/
 inductive ErrKind where
   | null | div0 | value | ref | name | num | na | gettingData
   deriving Repr, DecidableEq
 
-/-- `CellFormat` (formats.rs) -/
-inductive Fmt where
-  | other | dateTime | timeDelta
-  deriving Repr, DecidableEq
-
-/-- `ExcelDateTimeType` -/
-inductive DtKind where
-  | dateTime | timeDelta
-  deriving Repr, DecidableEq
+/-- `ExcelDateTimeType`, as in C10's model -/
+abbrev DtKind := Formats.DtKind
 
 /-- `Data` (the variants the xls reader produces) -/
 inductive Val where
@@ -67,7 +66,7 @@ abbrev Cell := Nat × Nat × Val
 structure Env where
   ops : FOps
   /-- `self.formats`: the `CellFormat` of every XF record, index = ixfe -/
-  fmts : List Fmt
+  fmts : List CellFormat
   is1904 : Bool
   /-- the shared string table -/
   strings : List (List Nat)
@@ -83,17 +82,17 @@ def u64At (b : Bytes) (i : Nat) : Nat := u32At b i + 4294967296 * u32At b (i + 4
 /-! ### number typing -/
 
 /-- `format_excel_f64` -/
-def fmtF64 (bits : Nat) (fmt : Option Fmt) (is1904 : Bool) : Val :=
+def fmtF64 (bits : Nat) (fmt : Option CellFormat) (is1904 : Bool) : Val :=
   match fmt with
   | some .dateTime => .dt bits .dateTime is1904
   | some .timeDelta => .dt bits .timeDelta is1904
   | _ => .float bits
 
-/-- `format_excel_i64` -/
-def fmtI64 (ops : FOps) (v : Int) (fmt : Option Fmt) (is1904 : Bool) : Val :=
+/-- `format_excel_i64`: a date/time format turns the integer into the serial `value as f64` -/
+def fmtI64 (v : Int) (fmt : Option CellFormat) (is1904 : Bool) : Val :=
   match fmt with
-  | some .dateTime => .dt (ops.i2f v) .dateTime is1904
-  | some .timeDelta => .dt (ops.i2f v) .timeDelta is1904
+  | some .dateTime => .dt (i2f v) .dateTime is1904
+  | some .timeDelta => .dt (i2f v) .timeDelta is1904
   | _ => .int v
 
 /-- result of RK decoding before number-format typing -/
@@ -114,21 +113,21 @@ def rkNum (ops : FOps) (w : Nat) : Num :=
   if isInt then
     let i32 : Int := if m < 2147483648 then (m : Int) else (m : Int) - 4294967296
     let v : Int := i32 >>> 2
-    if d100 && Int.tmod v 100 != 0 then .float (ops.div100 (ops.i2f v))
+    if d100 && Int.tmod v 100 != 0 then .float (ops.div100 (i2f v))
     else .int (if d100 then Int.tdiv v 100 else v)
   else
     let bits := m * 4294967296
     .float (if d100 then ops.div100 bits else bits)
 
 /-- `format_excel_f64` / `format_excel_i64` applied to the decoded RK value -/
-def fmtNum (ops : FOps) (n : Num) (fmt : Option Fmt) (is1904 : Bool) : Val :=
+def fmtNum (n : Num) (fmt : Option CellFormat) (is1904 : Bool) : Val :=
   match n with
-  | .int v => fmtI64 ops v fmt is1904
+  | .int v => fmtI64 v fmt is1904
   | .float b => fmtF64 b fmt is1904
 
 /-- `rk_num(&r[off..off+6], formats, is_1904)`: ixfe then the RK word -/
 def rkNumAt (env : Env) (b : Bytes) (off : Nat) : Val :=
-  fmtNum env.ops (rkNum env.ops (u32At b (off + 2))) env.fmts[u16At b off]? env.is1904
+  fmtNum (rkNum env.ops (u32At b (off + 2))) env.fmts[u16At b off]? env.is1904
 
 /-! ### cell records -/
 
@@ -190,12 +189,13 @@ def parseLabel (r : Bytes) : Res Cell :=
     | .panic s => .panic s
     | .outOfFuel => .outOfFuel
 
-/-- `parse_label_sst`: an index beyond the table and an empty shared string give no cell -/
+/-- `parse_label_sst`: an index beyond the table gives no cell (an empty shared string is a `String("")` cell
+    since fix b90dd43; the pinned code dropped it) -/
 def parseLabelSst (env : Env) (r : Bytes) : Res (Option Cell) :=
   if r.length < 10 then .err "Len:label sst"
   else
     match env.strings[u32At r 6]? with
-    | some s => if s.isEmpty then .ok none else .ok (some (u16At r 0, u16At r 2, .str s))
+    | some s => .ok (some (u16At r 0, u16At r 2, .str s))
     | none => .ok none
 
 /-- `parse_dimensions`: only its error matters for the cells (the result feeds `Vec::reserve`) -/
